@@ -50,6 +50,7 @@ def strategyByName : String → Option Strategy
 
 partial def ftreeOfSexp : Sexp → Option FTree
   | .list [.atom "f", .str n] => some (.file n)
+  | .list [.atom "l", .str n] => some (.link n)
   | .list [.atom "d", .str n, .list cs] => do some (.dir n (← cs.mapM ftreeOfSexp))
   | _ => none
 
